@@ -173,6 +173,9 @@ func CheckC17(run *ev.Run) {
 		"passes go-openapi/validate and holds every annotated route with its method, path, id, tag, parameters (name, location) and response codes; fuzzed programs (hostile lines - blank-only lines, tabs, " +
 		"list markers, half-written sections, stray annotations - inserted into every comment group) must never make the scanner panic"
 	run.Trusted = append(run.Trusted, "codescan.Run in-process with recover()", "go-openapi/validate as the judge of a valid Swagger 2.0 document", "the expectation derived from the program generator")
+	run.Trusted = append(run.Trusted, "build-tag accessors VerifRemoveIndent / VerifSchemes / VerifPathAnnotation (run the real functions and regexps; the models of the two item splitters are given the group the real regexp captured)")
+	run.Assume = append(run.Assume, "the regular expressions rxSchemes / rxRoute / rxOperation are run, not modelled: the theorems about schemes and tags start at the captured group",
+		"annotation lines written per the documented grammar (any blanks of class Zs between tokens, one-letter tags included) must be recognised and read back exactly; hostile Schemes lines may be rejected")
 	run.Assume = append(run.Assume, "for fuzzed programs only the absence of a crash is required (an error or any document is acceptable)", "merging with an input spec is not exercised here")
 	scan := func(src string) ([]byte, error, string) {
 		root, err := ScratchRoot("c17")
